@@ -220,6 +220,7 @@ pub fn run(outdir: &Path, tier: &str, seed: u64, shards: usize, _replay: Option<
         cases,
         checkers: vec!["corr".into(), "prop".into(), "prop_item".into(), "known_ident_collision".into()],
         extra_imports: vec!["Json".into()],
+        preludes: vec![],
     };
     cs.write(
         outdir,
